@@ -57,6 +57,7 @@ VARIANTS = {
 # harness name -> (source, kind) ; kind 'mc' links the explorer engine, 'seq' is a standalone program
 HARNESSES = {
     'handoff': dict(src='harness/handoff.cpp', kind='mc'),
+    'atomic_diff': dict(src='harness/atomic_diff.cpp', kind='seq'),
 }
 
 
@@ -197,9 +198,17 @@ def mc(harness, variant='mc-asan', quick=None, thorough=None, oracles=None):
     return dict(kind='mc', harness=harness, variant=variant, quick=quick or {}, thorough=thorough or {}, oracles=oracles)
 
 
+def seq(harness, variant, quick=None, thorough=None, oracles=None):
+    return dict(kind='seq', harness=harness, variant=variant, quick=quick or {}, thorough=thorough or {}, oracles=oracles)
+
+
 CHECKS = {
     'C01': dict(
         title='Promise -> Future delivered exactly once, intact',
+        level_text='all interleavings (no preemption bound) of one producer fiber and one consumer fiber at the '
+                   'granularity of every atomic/mutex operation, for every consumer kind x producer kind x value/error '
+                   'type, executed on the real code; oracles: exactly-once, equality with what was set, Ready implies '
+                   'readable, tracked-object ledger, allocation balance, ASan, library assertions',
         budget=dict(quick=150, thorough=1200),
         runs=[mc('handoff', 'mc-asan', quick=dict(P=99), thorough=dict(P=99))],
         assumptions=[
@@ -208,6 +217,18 @@ CHECKS = {
             'sequentially consistent executions only',
         ],
         technique='stateless model checking: exhaustive DFS over all schedules of the real code under a controlled fiber scheduler',
+    ),
+    'C19': dict(
+        title='yaclib_std::atomic computes what std::atomic computes',
+        level_text='every operation sequence up to length 2 (bool, T*: 3) over the full operation alphabet x operand set '
+                   'x 12 types x {FIBER, THREAD} backend, with the spurious-failure answer of every weak CAS enumerated, '
+                   'compared step by step with std::atomic',
+        budget=dict(quick=120, thorough=900),
+        runs=[seq('atomic_diff', 'at-fiber'), seq('atomic_diff', 'at-thread')],
+        assumptions=['operand alphabet {0,1,2,-1,min,max,max/3} (pointers: offsets into one array; floats: 0,1,-1.5,1e10[,max,min])',
+                     'std::atomic of libstdc++ on this machine is the reference',
+                     'volatile-qualified overloads are not exercised'],
+        technique='bounded exhaustive enumeration of operation sequences, differential against std::atomic',
     ),
 }
 
@@ -434,7 +455,93 @@ def check(prop, tier):
 
 
 def run_seq(prop, run, tier, seed, t_end, work):
-    raise SystemExit('seq runs not implemented yet')
+    """Runs a sequential enumerator binary, optionally sharded.  Same result format as the explorer."""
+    vname = run['variant']
+    binp = os.path.join(BUILD, vname, 'bin', run['harness'])
+    opts = dict(run[tier])
+    nshards = int(opts.get('shards', 1))
+    env = dict(os.environ)
+    env['ASAN_OPTIONS'] = ASAN_OPTIONS
+    results, errors = [], []
+
+    def one(i):
+        outp = os.path.join(work, '%s-%s-%d.json' % (run['harness'], vname, i))
+        cmd = [binp, '--tier', tier, '--out', outp, '--shard', str(i), '--nshards', str(nshards),
+               '--deadline', '%.1f' % max(1.0, t_end - time.time())] + [str(x) for x in opts.get('args', [])]
+        r = subprocess.run(cmd, stdout=subprocess.PIPE, stderr=subprocess.STDOUT, text=True, env=env)
+        res = None
+        if os.path.exists(outp):
+            try:
+                res = json.load(open(outp))
+            except Exception:  # noqa
+                res = None
+        return r.returncode, r.stdout, res
+
+    with concurrent.futures.ThreadPoolExecutor(max_workers=NPROC) as ex:
+        for rc, out, res in ex.map(one, range(nshards)):
+            if res is None or rc not in (0, 1):
+                errors.append('%s/%s failed rc=%s: %s' % (run['harness'], vname, rc, (out or '')[-1500:]))
+            if res is not None:
+                for c in res['cells']:
+                    c['harness'] = run['harness']
+                    c['variant'] = vname
+                    results.append(c)
+    return results, errors
+
+
+PENDING_REASON = 'check not implemented yet in this revision of /verif (work in progress, see DESIGN.md work order)'
+
+
+def write_manifest():
+    props = [json.loads(l) for l in open(os.path.join(VERIF, 'properties.jsonl'))]
+    commits = subprocess.run(['git', '-C', REPO, 'log', '--format=%H %s'], stdout=subprocess.PIPE, text=True).stdout
+    hook_commits = [l.split()[0] for l in commits.split('\n') if ' verif hooks' in l]
+    m = dict(
+        version=1,
+        setup_cmd='python3 run.py setup',
+        hooks=dict(
+            guard='YACLIB_VERIF',
+            enable='run.py compiles /repo/src and /repo/include itself (ninja, g++) with -DYACLIB_VERIF in the explorer '
+                   'variants (mc-asan, mc-hb, ...); the hook table yaclib::verif::gHooks is filled by engine/engine.cpp; '
+                   'with the table empty or the guard off the code is unchanged',
+            baseline_off_cmd='cmake --build /repo/_build && ctest --test-dir /repo/_build -j8 --timeout 900',
+            source_commits=list(reversed(hook_commits)), add_only=True),
+        engines=[
+            dict(name='vx', path='engine/engine.cpp',
+                 serves_properties=sorted(k for k, v in CHECKS.items() if any(r['kind'] == 'mc' for r in v['runs'])),
+                 kind_free_text='stateless, preemption-bounded, exhaustive explorer that drives YACLib\'s own FIBER '
+                                'fault-injection scheduler through YACLIB_VERIF hooks (every schedule of the real code within '
+                                'the bounds; crash containment by fork; replayable schedules)'),
+            dict(name='seq', path='harness/',
+                 serves_properties=sorted(k for k, v in CHECKS.items() if any(r['kind'] == 'seq' for r in v['runs'])),
+                 kind_free_text='bounded exhaustive enumerators of operation sequences / pipeline programs run on the real '
+                                'code against a reference model'),
+        ],
+        checks=[], notes='see DESIGN.md; known_findings.json lists recorded and fixed defects', not_applicable=[])
+    for p in props:
+        pid = p['id']
+        if pid in CHECKS:
+            c = CHECKS[pid]
+            m['checks'].append(dict(
+                property_id=pid,
+                quick_cmd='python3 run.py check %s --tier quick' % pid,
+                thorough_cmd='python3 run.py check %s --tier thorough' % pid,
+                evidence_file='evidence/%s.json' % pid,
+                replay_cmd_template='python3 run.py replay {path}',
+                engine='vx' if any(r['kind'] == 'mc' for r in c['runs']) else 'seq',
+                level_claimed=dict(category='model_checking', text=c.get('level_text', c['title']),
+                                   design_ref='DESIGN.md section 3, ' + pid),
+                level_note='; '.join(c.get('assumptions', [])),
+                technique=c.get('technique', 'model checking'),
+            ))
+        else:
+            m['not_applicable'].append(dict(property_id=pid, reason=NA_REASONS.get(pid, PENDING_REASON)))
+    with open(os.path.join(VERIF, 'MANIFEST.json'), 'w') as f:
+        json.dump(m, f, indent=1)
+        f.write('\n')
+
+
+NA_REASONS = {}
 
 
 def replay(path):
@@ -457,6 +564,7 @@ def main():
     r = sub.add_parser('replay')
     r.add_argument('file')
     sub.add_parser('setup')
+    sub.add_parser('manifest')
     a = ap.parse_args()
     if a.cmd == 'build':
         tg = []
@@ -470,6 +578,8 @@ def main():
         sys.exit(check(a.prop, a.tier))
     elif a.cmd == 'replay':
         sys.exit(replay(a.file))
+    elif a.cmd == 'manifest':
+        write_manifest()
     elif a.cmd == 'setup':
         tg = sorted({(r['harness'], r['variant']) for spec in CHECKS.values() for r in spec['runs']})
         t0 = time.time()
